@@ -132,7 +132,7 @@ def run(chk):
     from .mini_specs import threshold_count
     threshold_count(chk, src, "threshold-count")
     chk.rule("sorted-before-prefix", "values of a full (blocked, unsorted) svd_qn never flow into _update_ms / truncate_tensors / a prefix slice", 4)
-    chk.rule("svd-sort", "economic svd_qn applies one descending argsort to u, v, s and both label lists", 5)
+    chk.rule("svd-sort", "svd_qn (abstract run with column provenance): columns on the rows of their sector with its label; economic SVD: u, v, s and both label lists in one descending order", 3)
     chk.rule("co-truncate", "u, s, v and both label lists are cut by one bound / selected by one index (abstract runs of _update_ms and truncate_tensors; select_basis)", 8)
     chk.rule("trunc-bound", "compute_m_trunc: kept count = min over the bounds its criterion names; unknown criteria rejected (abstract run)", 4)
     chk.rule("bond-index", "explicit-list path and config path select the same bond for (site, direction)", 6)
@@ -147,30 +147,9 @@ def run(chk):
                    "no prefix truncation", line=s.call.lineno,
                    detail=f"{s.fi.qual}: singular vectors of a blocked decomposition (one block per quantum number, not globally sorted) are truncated by "
                           f"prefix: the kept vectors are not the ones with the largest singular values")
-    # svd_qn economic branch sorts everything by one order
-    sq = src.func("renormalizer/mps/svd_qn.py", "svd_qn")
-    blk = [n for n in ast.walk(sq.node) if isinstance(n, ast.If) and unparse(n.test).replace(" ", "") == "notfull_matrices"
-           and any("argsort" in unparse(x) for x in ast.walk(n))]
-    if not blk:
-        raise AnalysisError("svd_qn: sorting branch `if not full_matrices:` with argsort not found")
-    b = blk[0]
-    order_def = [s for s in b.body if isinstance(s, ast.Assign) and "argsort" in unparse(s.value)]
-    oname = unparse(order_def[0].targets[0])
-    desc = unparse(order_def[0].value).replace(" ", "") in ("np.argsort(su)[::-1]", "np.argsort(-su)", "np.argsort(sv)[::-1]")
-    chk.ob("svd-sort", "descending order", desc, sq.where, unparse(order_def[0].value), "np.argsort(su)[::-1]", line=order_def[0].lineno,
-           detail="ascending order would make every prefix truncation keep the smallest singular values")
-    permuted = {}
-    for s in b.body:
-        if isinstance(s, ast.Assign):
-            for x in ast.walk(s.value):
-                if isinstance(x, ast.Subscript) and oname in unparse(x.slice):
-                    base = x.value
-                    while isinstance(base, ast.Call):
-                        base = base.args[0]
-                    permuted[unparse(base)] = unparse(s.targets[0])
-    for nm in ("u", "v", "su", "new_qnl", "new_qnr"):
-        chk.ob("svd-sort", f"{nm} permuted by {oname}", nm in permuted, sq.where, permuted.get(nm, "not permuted"), f"{nm}[.. {oname}]", line=b.lineno,
-               detail=f"svd_qn sorts the singular values but leaves {nm} in block order: vectors/labels no longer belong to their singular values")
+    # svd_qn: abstract run with column provenance (chain_rules.svd_qn_rule)
+    from .chain_rules import svd_qn_rule
+    svd_qn_rule(chk, src, "svd-sort")
     # ---- co-truncate: abstract runs
     from .chain_rules import update_ms_rule
     update_ms_rule(chk, src, "co-truncate")
